@@ -6,6 +6,7 @@ pub mod proj;
 pub mod purity;
 pub mod graph;
 pub mod hilbert;
+pub mod longlists;
 pub mod lookup;
 pub mod partition;
 pub mod sets;
